@@ -104,9 +104,23 @@ func (fs *FS) setFile(path string, file FileRecord) error {
 		err = fs.setFileTxn(txn, path, file, contents)
 	}
 	if err == nil {
-		_, err = txn.Commit(context.Background())
+		var results []OpResult
+		results, err = txn.Commit(context.Background())
+		if err == nil {
+			err = firstOpErr(results)
+		}
 	}
 	return err
+}
+
+// firstOpErr returns the first error among a committed transaction's operation results, if any.
+func firstOpErr(results []OpResult) error {
+	for _, result := range results {
+		if result.Err != nil {
+			return result.Err
+		}
+	}
+	return nil
 }
 
 func (fs *FS) setFileTxn(txn Transaction, path string, file FileRecord, contents blob.Blob) error {
